@@ -8,7 +8,7 @@ What is extracted per field is exactly what the proc-macro (jomini_derive/src/li
   * whether a segment of the field type's outer path is `Option`              (can_default)
   * for a duplicated field, the first generic argument of the last path segment, `[T; N]` -> T
     (builder_fields, the element type that is deserialized and pushed).
-The precedence rules (duplicated over take_last, Option over default, first alias, first token) are
+The precedence rules (duplicated over take_last, default fn over bare default / Option, first alias, first token) are
 NOT applied here: the raw table goes to DeriveMacro.spec_of_attrs (Coq, extracted).  `fields_of`
 applies the same rules in Python for the independent specification and is cross-checked against the
 hand-written table of props/C18.py for the structs that have one.
@@ -311,22 +311,21 @@ class Tables:
         return ";".join(out)
 
     # ---- the same rules in Python, for the specification (format of props/C18.py:STRUCTS + extras) ----
-    def fields_of(self, inst, promised=False):
-        """promised=True: where the macro's precedence departs from the property text (`default = "fn"`
-        on an Option field), what the TEXT promises ("missing fields take their default (Option, default, default fn)":
-        an explicit default fn is the field's default)"""
+    def fields_of(self, inst):
+        """lib.rs can_default: the `default` argument first (`= "fn"` -> the function, bare -> Default::default()),
+        then an Option type (None), otherwise required"""
         out = []
         for r in self.raw(inst):
             dup = "dup" if r["duplicated"] else ("last" if r["take_last"] else "once")
             sh = self.shape(r["value_type"])
             if dup == "dup":
                 miss = "req"
-            elif r["option"] and not (promised and r["default"] == "p"):
-                miss = ("def", "(none)")
-            elif r["default"] == "w":
-                miss = ("def", self.type_default(sh))
             elif r["default"] == "p":
                 miss = ("def", self.fn_value(r["default_fn"]))
+            elif r["default"] == "w":
+                miss = ("def", self.type_default(sh))
+            elif r["option"]:
+                miss = ("def", "(none)")
             else:
                 miss = "req"
             out.append({"name": r["name"], "key": r["aliases"][0] if r["aliases"] else r["name"], "sh": sh, "dup": dup,
